@@ -75,6 +75,7 @@ def generate(rng, index: int, tier: str) -> dict:
         # classes do for their handshake chain and for error descriptions)
         if rng.random() < 0.5:
             tl.append({"at": 0.0, "op": "user.sock_subscribe", "name": "replier", "sub_yields": rng.choice([0, 0, 1]),
+                       "after_yields": rng.choice([0, 0, 3, 12, 40]), "after_sleep": rng.choice([0.0, 0.0, 2.0**-6, 0.25, 1.5]),
                        "replies": sendq.distinct_messages(rng, gen, 40)[24:]})
         n0 = rng.choice([0, 0, 1, 2])
         fates += [{"kind": rng.choice(["refuse", "unreachable", "timeout"]), "latency": rng.choice([0.0, 0.125])} for _ in range(n0)]
